@@ -9,11 +9,15 @@ on the real container and its twin:
      (reqs (rq <method> <path> <origin> <acrm> <acrh>
                (obs <reached> (extra (h <name> <value>)…) <missing> <status> <twinStatus> <bodySame> <logSame> <later>))…))
 
+Between two `(rq …)` items the list may hold a `(cfg <router> (svc …)…)` item: the route table of the
+container was changed there (ws.Route / ws.RemoveRoute on a registered WebService) and every request
+behind it is answered — model and predicates — from that table (`Cors.corsSeqT`).
+
 The user predicate travels as data: `(pred some h…)` is the function "the argument is one of these
 strings" (exact comparison); the harness installs the very same function as `AllowedDomainFunc`.
 
 Answer: `(out <id> (r (added (h n v)…) <passOn> (tag t) (c08 b) (c09 b) (allowed b) (nroots k))… (spec C08 b) (spec C09 b))`
-— the model's outcome per request (through `Cors.corsSeq`, i.e. one filter value for the whole
+— the model's outcome per request (through `Cors.corsSeqT`, i.e. one filter value for the whole
 history) and both property predicates evaluated on the REAL observations.
 -/
 import Restful.Driver.Routing
@@ -55,6 +59,16 @@ def decCorsReq (e : SExp) : Option (CorsReq × Spec.CorsObs) := do
     pure ({ method := ← asStr m, path := ← asStr p, origin := ← asStr o, acrm := ← asStr acrm, acrh := ← asStr acrh }, ← decObs obs)
   | _ => none
 
+/-- the items of `(reqs …)`: every request with the table in force when it was sent -/
+def decItems : Config → List SExp → Option (List (Config × CorsReq × Spec.CorsObs))
+  | _, [] => some []
+  | tbl, e :: rest =>
+    match e with
+    | .list (.atom "cfg" :: _) => do decItems (← decCfg e) rest
+    | _ => do
+      let (rq, obs) ← decCorsReq e
+      pure ((tbl, rq, obs) :: (← decItems tbl rest))
+
 def b01 (b : Bool) : String := if b then "1" else "0"
 
 def encAdded (hs : List (Str × Str)) : String :=
@@ -79,11 +93,11 @@ def nRoots (tbl : Config) (path : Str) : Nat := Spec.rootsMatching implEnv tbl p
 def handleCors (e : SExp) : Option String :=
   match e with
   | .list [.atom "cors", .atom id, f, c, rs] =>
-    some <| match decFilter f, decCfg c, (args "reqs" rs).bind (·.mapM decCorsReq) with
-    | some cc, some tbl, some reqs =>
+    some <| match decFilter f, (decCfg c).bind (fun tbl => (args "reqs" rs).bind (decItems tbl)) with
+    | some cc, some reqs =>
       let lower := Str.toLowerAscii
-      let outs := corsSeq lower implEnv tbl cc (reqs.map (·.1))
-      let per := (reqs.zip outs).map fun ((rq, obs), out) =>
+      let outs := corsSeqT lower implEnv cc (reqs.map fun (tbl, rq, _) => (tbl, rq))
+      let per := (reqs.zip outs).map fun ((tbl, rq, obs), out) =>
         let c08 := Spec.c08Holds lower cc rq obs
         let c09 := Spec.c09Holds lower implEnv cc tbl rq obs
         let body := match out with
@@ -94,7 +108,7 @@ def handleCors (e : SExp) : Option String :=
       let all08 := per.all (·.2.1)
       let all09 := per.all (·.2.2)
       s!"(out {id} " ++ " ".intercalate (per.map (·.1)) ++ specLine "C08" all08 ++ specLine "C09" all09 ++ ")"
-    | _, _, _ => s!"(bad-cors {id})"
+    | _, _ => s!"(bad-cors {id})"
   | _ => none
 
 end Restful.Driver.CorsP
